@@ -49,6 +49,9 @@ func seqKind(e updsim.Entry) string {
 
 func judgePersisted(sc updsim.Scenario, out *playOut) kit.Result {
 	w, _, err := updsim.Play(sc)
+	if w != nil {
+		defer w.Close()
+	}
 	if err != nil {
 		return kit.Bad("harness", "%v", err)
 	}
@@ -64,8 +67,11 @@ func judgePersisted(sc updsim.Scenario, out *playOut) kit.Result {
 		r.Key = res.Key
 		return r
 	}
-	if a := updsim.CheckPersisted(log, w.Chans, updsim.InitialStore(log), w.Trace); a != nil {
+	if a := updsim.CheckPersisted(log, w.All, updsim.InitialStore(sc.World, log), w.Trace, w.Owed); a != nil {
 		class := "persisted-ahead:" + a.Entry.Class() + "-" + servedBefore(w, a)
+		if sc.World.IsUntracked(a.Entry.Chan) {
+			class = "persisted-ahead:update-of-newly-seen-channel"
+		}
 		if a.TooLong {
 			class = "persisted-ahead:too-long-" + seqKind(a.Entry) + "-saved-before-callback"
 		}
@@ -141,6 +147,9 @@ func judgeCrash(cw crashW) kit.Result {
 	chans := updsim.LogChannels(log)
 	if trace == nil {
 		w, _, err := updsim.Play(sc)
+		if w != nil {
+			defer w.Close()
+		}
 		if err != nil {
 			return kit.Bad("harness", "%v", err)
 		}
@@ -149,7 +158,18 @@ func judgeCrash(cw crashW) kit.Result {
 	if cw.CrashAfter > len(trace) {
 		return kit.Bad("harness", "crash point %d beyond the trace (%d)", cw.CrashAfter, len(trace))
 	}
-	store, before, reported := updsim.Snapshot(log, updsim.InitialStore(log), trace, cw.CrashAfter)
+	store, before, reported := updsim.Snapshot(log, updsim.InitialStore(sc.World, log), trace, cw.CrashAfter)
+	// entries of a channel the client did not know at the start are owed only if the crashed run
+	// had already persisted a position for it, and only after the first contact
+	contact := updsim.FirstContact(sc.World, log, sc.Hist)
+	owed := func(e updsim.Entry) bool {
+		if e.Chan == 0 || !sc.World.IsUntracked(e.Chan) {
+			return true
+		}
+		fc, seen := contact[e.Seq]
+		_, saved := store.Chans[e.Chan]
+		return seen && saved && e.End > fc
+	}
 	r, err := restart(sc.World, store, chans)
 	if err != nil {
 		return kit.Bad("harness", "restart: %v", err)
@@ -180,12 +200,15 @@ func judgeCrash(cw crashW) kit.Result {
 	var lost []string
 	class := ""
 	for i, e := range log {
-		if before[i]+r.count[i] > 0 || reported[e.Seq] || r.tooLong[e.Seq] {
+		if before[i]+r.count[i] > 0 || reported[e.Seq] || r.tooLong[e.Seq] || !owed(e) {
 			continue
 		}
 		lost = append(lost, fmt.Sprintf("#%d %s (%s %d)", i, e.Kind, e.Seq, e.End))
 		if class == "" {
 			class = "lost-after-crash:" + e.Class()
+			if sc.World.IsUntracked(e.Chan) {
+				class = "lost-after-crash:update-of-newly-seen-channel"
+			}
 			if answered[e.Seq] {
 				class = "lost-after-crash:too-long-" + seqKind(e) + "-saved-before-callback"
 			}
@@ -283,6 +306,14 @@ func plans(thorough bool) []worldPlan {
 			}
 		}
 	}
+	// channels the client neither tracks nor has in its storage (access hash known): the first
+	// pushed update makes the main loop persist a start position and create the worker; crash
+	// points lie between that write and the worker's first delivery
+	for _, ch := range seqs([]string{"cmsg@2", "cdel@2"}, 1, chanLen) {
+		add(ch, depth, func(c *updsim.WorldCfg) { c.Untracked = []int{2} })
+		add(cat([]string{"msg", "cmsg"}, ch), depth, func(c *updsim.WorldCfg) { c.Untracked = []int{2}; c.Server.ChanSlice = 1 })
+	}
+	add([]string{"cmsg@2", "cmsg@3", "cdel@3"}, depth, func(c *updsim.WorldCfg) { c.Untracked = []int{2, 3} })
 	add([]string{"cmsg", "cedit"}, depth, nil)
 	add([]string{"msg", "del", "enc", "cmsg", "cdel"}, depth, nil)
 	add([]string{"cmsg", "cmsg@2", "cdel@2"}, depth, nil)
@@ -304,7 +335,7 @@ func main() {
 		if c.Replaying() {
 			return
 		}
-		c.Rule("Worlds and histories as in C02 (reference server log, BFS over pushes in any order/repetition/omission + timers, each of 3 recoveries from every reachable state), plus worlds whose server answers differenceTooLong / channelDifferenceTooLong. " +
+		c.Rule("Worlds and histories as in C02 (reference server log, BFS over pushes in any order/repetition/omission + timers, each of 3 recoveries from every reachable state), plus worlds whose server answers differenceTooLong / channelDifferenceTooLong, plus worlds with channels that are neither tracked nor in the storage when the client starts (access hash known): their first pushed update takes internalState.handleChannel's create path (main loop persists the start position, creates the channelState and starts its worker; the worker's real goroutine is parked in its subscribe call by the fake server and the harness performs the subscribe difference and the queue steps itself), so crash points lie between the main loop's write and the worker's first delivery. Entries of such a channel are owed to the handler from the position before its first pushed entry on (and, after a crash, only if a position for it had been persisted). " +
 			"Family persisted (a): every scenario's merged trace of StateStorage writes, Handler.Handle calls and too-long callbacks; oracle on EVERY prefix: no log entry whose end position is <= the saved pts/qts/channel pts of its sequence is still undelivered unless the too-long callback of that sequence was called earlier. " +
 			"Family crash-restart (b): for every scenario that ends with a recovery, a crash after each k = 0..len(trace) trace elements (every call boundary of the two interfaces): storage snapshot at k -> new engine through the real loadState/loadChannels -> start-up difference + channel subscriptions + all timers to a fixpoint against the complete log; oracle: every log entry was handed to the handler before the crash or in the second run, or its sequence was reported too long. " +
 			"A case = scenario (+ crash point); distinct = distinct cases; the root scenario of a world is trivial.")
